@@ -166,7 +166,7 @@ def replay(path):
         import signal
         from jugverif import procmode
         p = d['replay']['params']
-        obs = procmode.signal_case(p.get('n', 4), p['k'], signal.Signals(p['sig']), p.get('args', []), repeat=p.get('repeat', False))
+        obs = procmode.signal_case(p.get('n', 4), p['k'], signal.Signals(p['sig']), p.get('args', []), repeat=p.get('repeat', False), barrier=p.get('barrier', False))
         run = core.Run('C12', 'quick')
         procmode.judge_stop(run, obs, p)
         print({k: v for k, v in obs.items() if k not in ('calls', 'calls_before')})
